@@ -307,6 +307,15 @@ class Run:
             eff = cl.edit(*self.key(act['obj']), lambda b: b.setdefault('status', {}).update(foreign=act['v'])) is not None
         elif a == 'annotate':
             eff = cl.edit(*self.key(act['obj']), lambda b: b['metadata'].setdefault('annotations', {}).update({'example.com/note': str(act['v'])})) is not None
+        elif a == 'annotate_raw':
+            # any annotation, kopf's own included (somebody edits or damages what the operator persists): value None removes it
+            def fn(b):
+                anns = b['metadata'].setdefault('annotations', {})
+                if act['value'] is None:
+                    anns.pop(act['key'], None)
+                else:
+                    anns[act['key']] = act['value']
+            eff = cl.edit(*self.key(act['obj']), fn) is not None
         elif a == 'label':
             def fn(b):
                 labels = b['metadata'].setdefault('labels', {})
